@@ -702,4 +702,39 @@ def discoverProviderMetadata (fuel : Nat) {σ : Type} (ops : Go.DOps σ) (provid
   | some (.brk (attempt, lastErr, w)) =>
     some ((((none : Option Go.Meta), (some (['m','a','x',' ','r','e','t','r','i','e','s',' ','e','x','c','e','e','d','e','d',' ','w','h','i','l','e',' ','f','e','t','c','h','i','n','g',' ','p','r','o','v','i','d','e','r',' ','m','e','t','a','d','a','t','a',':',' '] ++ (Go.errText lastErr)))), w))
 
+/-- MetadataCache.isCacheValid (metadata_cache.go) -/
+def MetadataCache_isCacheValid (now : Go.Time) (c : Go.MetaCache) : Bool :=
+  (c.metadata.isSome && (Go.timeBefore now c.expiresAt))
+
+/-- MetadataCache.Cleanup (metadata_cache.go) -/
+def MetadataCache_Cleanup (now : Go.Time) (c : Go.MetaCache) : Go.MetaCache :=
+  let now_1 := now
+  if (c.metadata.isSome && (Go.timeAfter now_1 c.expiresAt)) then
+    let c := { c with metadata := (none : Option Go.Meta) }
+    c
+  else
+    c
+
+/-- MetadataCache.GetMetadata (metadata_cache.go) -/
+def MetadataCache_GetMetadata (fuel : Nat) {σ : Type} (ops : Go.DOps σ) (c : Go.MetaCache) (providerURL : Go.Str) (httpClient : Go.HTTPClient) (logger : Go.Logger) (w : σ) : Option ((((Option Go.Meta) × Go.Err) × Go.MetaCache) × σ) :=
+  if (MetadataCache_isCacheValid (ops.clock w) c) then
+    some ((((c.metadata, (none : Go.Err)), c), w))
+  else
+    if (MetadataCache_isCacheValid (ops.clock w) c) then
+      some ((((c.metadata, (none : Go.Err)), c), w))
+    else
+      match (discoverProviderMetadata fuel ops providerURL httpClient logger w) with
+      | none => none
+      | some ((metadata, err), w) =>
+        if err.isSome then
+          if c.metadata.isSome then
+            let c := { c with expiresAt := (Go.timeAdd (ops.clock w) ((5 : Int) * Go.Minute)) }
+            some ((((c.metadata, (none : Go.Err)), c), w))
+          else
+            some (((((none : Option Go.Meta), (some (['f','a','i','l','e','d',' ','t','o',' ','f','e','t','c','h',' ','p','r','o','v','i','d','e','r',' ','m','e','t','a','d','a','t','a',':',' '] ++ (Go.errText err)))), c), w))
+        else
+          let c := { c with metadata := metadata }
+          let c := { c with expiresAt := (Go.timeAdd (ops.clock w) ((1 : Int) * Go.Hour)) }
+          some ((((metadata, (none : Go.Err)), c), w))
+
 end Oidc.Generated.Code
